@@ -91,6 +91,12 @@ impl WalIndex {
             to: &self.path,
         });
         fs::rename(&tmp_path, &self.path)?;
+        // The rename only becomes durable once the directory entry is synced; without
+        // this a power loss can bring back the previous cursor file and redeliver
+        // entries whose consumption was already acknowledged.
+        if let Some(dir) = std::path::Path::new(&self.path).parent() {
+            fs::File::open(dir)?.sync_all()?;
+        }
         Ok(())
     }
 }
